@@ -12,22 +12,32 @@ The theorems quantify over every list of levels that forms a tree (`Tree`: no bo
 of levels), every map-iteration oracle (`Orders.Valid`: same members, any order, possibly different
 at every call), every start level, every target, every cache content, every device policy about
 asking for the password (`asks`, within `asksOK`), and every sequence of operations whose payload
-lines are not transition commands. Regex behaviour enters as the hypothesis `distinguishes` on the
-abstract matcher `Cfg.matchP` (not-contains + pattern) and the device's prompts `Cfg.promptOf`.
+lines are not transition commands. Regex behaviour enters as hypotheses on the abstract matcher
+`Cfg.matchP` (not-contains + pattern) and the device's prompts `Cfg.promptOf`: every level
+recognises its own prompt (`recognises`); prompts need NOT distinguish the levels — levels whose
+prompt other levels accept too (`configuration` / `configuration-exclusive`) must be leaves of the
+graph (`ambigLeaf`), and at such a level the tracked `CurrentPriv` must be accurate (`Resolves`;
+maintained by the driver itself: `cache_coherent`).
 -/
 namespace Scrapli.Priv.C04
 open Scrapli Scrapli.Priv Scrapli.Forest
 
 /-- the decidable checks the driver evaluates per case imply the theorems' hypotheses -/
-theorem dom_of_checks (c : Cfg) (h1 : isTree c.L = true) (h2 : distinguishes c = true)
-    (h3 : cmdsOK c.L = true) (h4 : asksOK c = true) (h5 : ∀ t, (c.orc t).Valid) : Dom c := by
-  refine ⟨tree_of_isTree h1, ?_, h2, h3, h4, h5⟩
+theorem dom_of_checks (c : Cfg) (h1 : isTree c.L = true) (h2 : recognises c = true)
+    (h2' : ambigLeaf c = true) (h3 : cmdsOK c.L = true) (h4 : asksOK c = true)
+    (h5 : ∀ t, (c.orc t).Valid) : Dom c := by
+  refine ⟨tree_of_isTree h1, ?_, h2, h2', h3, h4, h5⟩
   unfold isTree at h1
   simp only [Bool.and_eq_true, Bool.not_eq_true'] at h1
   intro hc
   have := List.contains_iff_mem.2 hc
   rw [this] at h1
   exact absurd h1.1.1.2 (by simp)
+
+/-- prompts that distinguish all levels are the special case without any ambiguity -/
+theorem dom_of_distinguishing (c : Cfg) (h1 : isTree c.L = true) (h2 : distinguishes c = true)
+    (h3 : cmdsOK c.L = true) (h4 : asksOK c = true) (h5 : ∀ t, (c.orc t).Valid) : Dom c :=
+  dom_of_checks c h1 (recognises_of_distinguishes h2) (ambigLeaf_of_distinguishes h2) h3 h4 h5
 
 /-- `pathDFS_unique`: on a tree there is exactly one simple path between two levels, and
 `buildPrivChangeMap` returns it for EVERY neighbour iteration order -/
@@ -52,12 +62,12 @@ tree path: `x` is the parent of the current level `m` → de-escalate `m` (its d
 sent); otherwise `x` is a child of `m` → escalate into `x`. The cache is reset to `UNKNOWN`. -/
 theorem next_step_correct {c : Cfg} (hd : Dom c) {o : Orders} (ho : o.Valid) {m tgt x : Bytes}
     {rest : List Bytes} (hp : SimplePath (par c.L) m tgt (m :: x :: rest))
-    (hV : ∀ v ∈ m :: x :: rest, v ∈ names c.L) (cache : Bytes) :
+    (hV : ∀ v ∈ m :: x :: rest, v ∈ names c.L) (cache : Bytes) (hr : Resolves c cache tgt m) :
     (par c.L m = some x ∧
       processAcquire c.matchP o c.L cache tgt (c.promptOf m) = .ok ⟨.deescalate, m, unknownPriv⟩) ∨
     (par c.L x = some m ∧
       processAcquire c.matchP o c.L cache tgt (c.promptOf m) = .ok ⟨.escalate, x, unknownPriv⟩) := by
-  have h := processAcquire_step hd ho hp hV cache
+  have h := processAcquire_step hd ho hp hV cache hr
   by_cases hpar : par c.L m = some x
   · left; rw [h]; simp [hpar]
   · right
@@ -67,12 +77,15 @@ theorem next_step_correct {c : Cfg} (hd : Dom c) {o : Orders} (ho : o.Valid) {m 
 
 /-- at the target nothing is done and the cache names the target -/
 theorem at_target_no_action {c : Cfg} (hd : Dom c) {o : Orders} (ho : o.Valid) {m : Bytes}
-    (hm : m ∈ names c.L) (cache : Bytes) :
+    (hm : m ∈ names c.L) (cache : Bytes) (hr : Resolves c cache m m) :
     processAcquire c.matchP o c.L cache m (c.promptOf m) = .ok ⟨.noAction, m, m⟩ :=
-  processAcquire_same hd ho hm cache
+  processAcquire_same hd ho hm cache hr
 
-/-- THE PROPERTY (`acquire_reaches_target`). Tree, distinguishing prompts, unambiguous transition
-commands, any start level, any cache content, any map orders, any target in the map: `AcquirePriv`
+/-- THE PROPERTY (`acquire_reaches_target`). Tree, self-recognising prompts that need not
+distinguish the levels (ambiguous ones are leaves), unambiguous transition commands, any start
+level whose candidates the tracked level resolves (`Resolves`: the prompt is unambiguous — then ANY
+cache content —, or the cache is accurate, or the device is at the target and the cache names no
+level), any map orders, any target in the map: `AcquirePriv`
 succeeds; it ran `|p|` loop iterations, i.e. `|p| − 1 ≤ |levels| − 1 < 2·|levels|` transitions,
 where `p` is THE simple path of the tree; the device is at the target (at a prompt), the cache names
 the target, and what the device received is exactly `expectedLog p`: one bare return per node and,
@@ -80,7 +93,8 @@ between two nodes, the deescalate command of the lower one or the escalate comma
 followed by the secret where the device asks for it — in path order, each in the mode the path
 prescribes. -/
 theorem acquire_reaches_target {c : Cfg} (hd : Dom c) (s : Sess) {tgt : Bytes}
-    (haw : s.dev.awaiting = none) (hm : s.dev.mode ∈ names c.L) (ht : tgt ∈ names c.L) :
+    (haw : s.dev.awaiting = none) (hm : s.dev.mode ∈ names c.L) (ht : tgt ∈ names c.L)
+    (hres : Resolves c s.cache tgt s.dev.mode) :
     ∃ p, SimplePath (par c.L) s.dev.mode tgt p ∧
       (∀ q, SimplePath (par c.L) s.dev.mode tgt q → q = p) ∧
       p.length ≤ c.L.length ∧ p.length - 1 < 2 * c.L.length ∧
@@ -92,7 +106,7 @@ theorem acquire_reaches_target {c : Cfg} (hd : Dom c) (s : Sess) {tgt : Bytes}
   have hlen := path_length_le hp hV
   have hpos : 0 < c.L.length := by rw [← names_length]; exact List.length_pos_of_mem ht
   exact ⟨p, hp, fun q hq => simplePath_unique hdep q p _ tgt hq hp, hlen, by omega,
-    acquirePriv_ok hd s haw ht hp hV⟩
+    acquirePriv_ok hd s haw hres ht hp hV⟩
 
 /-- the path is explicit: for levels passing the decidable tree check, the search returns
 `treePath` (up from the current level to the lowest common ancestor, then down to the target),
@@ -107,13 +121,26 @@ theorem pathDFS_is_treePath {L : Levels} (h : isTree L = true) {o : Orders} (ho 
 exactly `expectedLog (treePath current target)` -/
 theorem acquire_log_is_treePath {c : Cfg} (hd : Dom c) (htree : isTree c.L = true) (s : Sess)
     {tgt : Bytes} (haw : s.dev.awaiting = none) (hm : s.dev.mode ∈ names c.L)
-    (ht : tgt ∈ names c.L) :
+    (ht : tgt ∈ names c.L) (hres : Resolves c s.cache tgt s.dev.mode) :
     acquirePriv c tgt s =
       (none, { dev := { mode := tgt, awaiting := none,
                         log := s.dev.log ++ expectedLog c (treePath c.L s.dev.mode tgt) },
                cache := tgt, tick := s.tick + (treePath c.L s.dev.mode tgt).length }) := by
   obtain ⟨hp, hV⟩ := treePath_simple htree hm ht
-  exact acquirePriv_ok hd s haw ht hp hV
+  exact acquirePriv_ok hd s haw hres ht hp hV
+
+/-- `acquire_reaches_target_ambiguous`: the start level's prompt may be accepted by other levels
+too (sibling levels showing the same prompt) and the target may be one of them: as long as the
+tracked `CurrentPriv` is accurate, the acquisition walks the tree path and ends at the target — it
+never mistakes the sibling it is in for the sibling it was asked for. -/
+theorem acquire_reaches_target_ambiguous {c : Cfg} (hd : Dom c) (htree : isTree c.L = true)
+    (s : Sess) {tgt : Bytes} (haw : s.dev.awaiting = none) (hm : s.dev.mode ∈ names c.L)
+    (ht : tgt ∈ names c.L) (hcache : s.cache = s.dev.mode) :
+    acquirePriv c tgt s =
+      (none, { dev := { mode := tgt, awaiting := none,
+                        log := s.dev.log ++ expectedLog c (treePath c.L s.dev.mode tgt) },
+               cache := tgt, tick := s.tick + (treePath c.L s.dev.mode tgt).length }) :=
+  acquire_log_is_treePath hd htree s haw hm ht (Or.inr (Or.inl hcache))
 
 /-- the model's recursion fuel is not binding: the `count > 2·|levels|` exit of the Go loop always
 fires first, so `acquirePriv`'s `2·|levels| + 2` behaves like the unbounded `for` -/
@@ -184,8 +211,10 @@ theorem acquire_lines_are_path_commands {c : Cfg} (hd : Dom c) : ∀ (p : List B
 
 /-- `cache_coherent`: over ALL sequences of the five operations whose payload lines are not
 transition commands (whatever their targets — unknown targets are refused and change nothing),
-the invariant "the device sits at a prompt in a level, and a cache that names a level names the
-device's level" is preserved. -/
+the invariant "the device sits at a prompt in a level, a cache that names a level names the
+device's level, and the cache is accurate whenever the device's prompt is ambiguous" is preserved:
+sessions driven entirely by the driver keep the cache accurate, so levels that share a prompt need
+no extra hypothesis beyond a start at an unambiguous level (`inv_initial`). -/
 theorem cache_coherent {c : Cfg} (hd : Dom c) (hdef : c.default ∈ names c.L) :
     ∀ (ops : List Op) (s : Sess), Inv c s →
       (∀ op ∈ ops, ∀ l ∈ opLines op, l = [] ∨ isPayload c.L l = true) →
@@ -200,7 +229,7 @@ theorem cache_coherent {c : Cfg} (hd : Dom c) (hdef : c.default ∈ names c.L) :
     by_cases hlv : opLevel c op ∈ names c.L
     · obtain ⟨p, _, _, hrun⟩ := runOp_spec hd hi op (hpl op (by simp)) hlv
       rw [hrun]
-      exact ⟨rfl, hlv, fun _ => rfl⟩
+      exact ⟨rfl, hlv, fun _ => rfl, fun _ => rfl⟩
     · have hsk : opSkips c s op = false := by
         cases op <;> simp only [opSkips, opLevel] at hlv ⊢
         all_goals
@@ -211,11 +240,12 @@ theorem cache_coherent {c : Cfg} (hd : Dom c) (hdef : c.default ∈ names c.L) :
       rw [runOp_unknown c s op hsk hlv]
       exact hi
 
-/-- the initial state of a session (cache `""`, device at a prompt in some level) is coherent -/
+/-- the initial state of a session (cache `""`, device at a prompt in a level whose prompt is
+unambiguous) satisfies the invariant -/
 theorem inv_initial {c : Cfg} (hd : Dom c) {m : Bytes} (hm : m ∈ names c.L)
-    (log : List (Bytes × Bytes)) (tick : Nat) :
+    (hu : unambB c m = true) (log : List (Bytes × Bytes)) (tick : Nat) :
     Inv c { dev := { mode := m, awaiting := none, log := log }, cache := [], tick := tick } :=
-  ⟨rfl, hm, fun h => absurd h hd.tree.nonempty⟩
+  ⟨rfl, hm, fun h => absurd h hd.tree.nonempty, fun h => by simp [hu] at h⟩
 
 /-- `commands_at_default_configs_at_target`: after ANY history of such operations (whatever level
 they left the device in), the next operation with a known level delivers every one of its payload
@@ -266,8 +296,28 @@ def exCfg : Cfg where
   orc := fun _ => { nbr := fun _ l => l.reverse, lv := fun l => l.reverse }
 
 example : Dom exCfg :=
-  dom_of_checks exCfg (by decide) (by decide) (by decide) (by decide)
+  dom_of_distinguishing exCfg (by decide) (by decide) (by decide) (by decide)
     (fun _ => ⟨fun _ _ _ => List.mem_reverse, fun _ _ => List.mem_reverse⟩)
+
+/-- the same tree, but the siblings `c` and `t` show the same prompt and both matchers accept it -/
+def exAmbig : Cfg :=
+  { exCfg with
+    promptOf := fun m => if m == [99] || m == [116] then [120, 35] else m ++ [35]
+    matchP := fun l p =>
+      if l.name == [99] || l.name == [116] then p == [120, 35] else p == l.name ++ [35] }
+
+example : Dom exAmbig :=
+  dom_of_checks exAmbig (by decide) (by decide) (by decide) (by decide) (by decide)
+    (fun _ => ⟨fun _ _ _ => List.mem_reverse, fun _ _ => List.mem_reverse⟩)
+
+example : distinguishes exAmbig = false := by decide
+
+/-- in sibling `c` with an accurate cache, asked for sibling `t` (same prompt): up and down again -/
+example :
+    acquirePriv exAmbig [116] { dev := { mode := [99], awaiting := none, log := [] }, cache := [99], tick := 0 } =
+      (none, { dev := { mode := [116], awaiting := none,
+                        log := [([99], []), ([99], [4]), ([112], []), ([112], [5]), ([116], [])] },
+               cache := [116], tick := 3 }) := by decide +kernel
 
 /-- a down-then-up acquisition `c → p → t` (up to the common parent, down into the sibling),
 evaluated by the kernel -/
